@@ -13,7 +13,7 @@ import re
 import strfold
 import taint
 from facts import find_hir, strip
-from hireval import Evaluator, TooManyPaths
+from hireval import Evaluator, State, TooManyPaths
 
 LEVEL = "other"
 CRATES_QUICK = ["dmntk_feel_number", "dmntk_feel", "dmntk_feel_evaluator", "dmntk_common"]
@@ -102,6 +102,11 @@ def run(F, rep, tier):
                         "decQuadFromString reads plain decimal text exactly (up to 34 digits)"]
     plain_text_rule(F, rep)
     carrier_rule(F, rep)
+    lexical_forms_rule(F, rep)
+    # premise (C02): every conversion between text and number works on a private, pristine copy of the default context - a conversion must not depend on an earlier one
+    from props import c02
+    r3 = rep.rule("R02.3", "every FFI call gets a private copy of the default context; the default context is never modified from Rust")
+    c02.context_privacy_rule(F, rep, r3)
 
 
 # ====================================================================================================== R07.1 / R07.2
@@ -119,7 +124,7 @@ def plain_text_rule(F, rep):
     for k in ("Display", "Jsonify"):
         if k not in impls:
             rep.missing_anchor(r1, "%s for FeelNumber" % k)
-    crate_fns = {n for n in F.hir if n.startswith("dmntk_feel_number::") and "{closure" not in n and "::dec::" not in n}
+    crate_fns = {n for n in F.hir if (n.startswith("dmntk_feel_number::") or n.startswith("<dmntk_feel_number::number::FeelNumber as ")) and "{closure" not in n and "::dec::" not in n}
     texts = {}
     nshape = 0
     for key, text, digits, ex, frac, sg in shapes():
@@ -142,6 +147,9 @@ def plain_text_rule(F, rep):
                 probs.append("the minus sign is lost")
             if not sg and sign:
                 probs.append("a minus sign appears")
+            if not probs and not (lin_known(exp) and all(x[0] != "0" or lin_known(x[1]) for x in seq)):
+                rep.undecided(r1, ikey, "%s -> %s: a zero count or the position of the decimal point is not a linear form of the exponent and the lengths" % (strfold.render(text), strfold.render(val)))
+                continue
             if not probs:
                 if seq != want_seq:
                     probs.append("the digits are %s, the number's are %s" % (seq_text(seq), seq_text(want_seq)))
@@ -192,6 +200,10 @@ def plain_text_rule(F, rep):
                 rep.violation(r2, key, "%s renders Value::Number through %s instead of the number's Display / Jsonify" % (cands[0], (dbg + other)[0]), "%s:%s" % (h["file"], arm["b"].get("l", h["line"])))
             else:
                 rep.ok(r2, key, "through %s" % sorted({c.split("::")[-1] for c in calls if c})[:4])
+
+
+def lin_known(v):
+    return isinstance(v, tuple) and v[0] in ("lit", "sym", "lin")
 
 
 def pat_paths_of(p):
@@ -303,3 +315,115 @@ def closure_capture_labels(F, tt, n):
     for k, ls in T[0].items():
         out |= ls
     return {l for l in out if l in ("decimal-from-text", "primitive-parse", "number-from-primitive")}
+
+
+# ====================================================================================================== R07.4
+def lexical_forms_rule(F, rep):
+    """every lexical form of a plain number with at most 34 significant digits reaches the decimal reader unchanged: the conversion functions are folded on representative
+    texts (literal pieces; the abstract string engine computes on the text, nothing of the analysed code runs) and must answer with the number read from exactly that text"""
+    rid = rep.rule("R07.4", "every lexical form of a number with at most 34 significant digits (signs, leading / trailing zeros, fraction-only forms) is handed unchanged to the decimal reader")
+
+    def run_fn(name, args):
+        ev = Evaluator(F, ints=True, max_paths=400)
+        sf = strfold.StrFold(ev)
+
+        def hook(callee, a, st):
+            c = callee or ""
+            if (c == "core::str::<impl str>::parse" or c.endswith("FeelNumber as core::str::traits::FromStr>::from_str")) and a and strfold.as_str(a[-1] if c.endswith("from_str") else a[0]) is not None:
+                return ("v", "Ok", [("num", strfold.as_str(a[-1] if c.endswith("from_str") else a[0]))])
+            if c.endswith("::map_err") and a and a[0][0] == "v" and a[0][1] == "Ok":
+                return a[0]
+            if c.endswith("::ok") and a and a[0][0] == "v" and a[0][1] == "Ok":
+                return ("v", "Some", a[0][2])
+            return sf.hook(callee, a, st)
+        ev.call_hook = hook
+        ev.inline = {n for n in F.hir if n.startswith(name.rsplit("::", 1)[0] + "::") and "{closure" not in n and n != name}
+        h = F.hir[name]
+        try:
+            outs = ev.run(h["params"], h["body"], args)
+        except (TooManyPaths, ValueError, KeyError, RecursionError):
+            return None, ev, sf
+        return outs, ev, sf
+
+    def number_text(v, ev, depth=0):
+        """the text from which the resulting number was read: Ok(Value::Number(num)) / Ok(closure returning Value::Number(num)); "ERR" for an error / null result; None unknown"""
+        if not isinstance(v, tuple) or depth > 6:
+            return None
+        if v[0] == "num":
+            return strfold.render(v[1])
+        if v[0] == "v" and v[1] in ("Ok", "Some", "Number") and v[2]:
+            return number_text(v[2][0], ev, depth + 1)
+        if v[0] == "v" and v[1] in ("Err", "None", "Null"):
+            return "ERR"
+        if v[0] == "closure" and len(v) == 4:
+            outs = list(ev.apply_closure(v, [("sym", "scope")], State({})))
+            if len(outs) == 1:
+                return number_text(outs[0][1], ev, depth + 1)
+        return None
+    lit = lambda t: strfold.mk([("c", t)])
+    # ---- literals: (integer digits, fraction digits) of the lexer's numeric token
+    bn = [n for n in F.hir if n.startswith("dmntk_feel_evaluator::builders::") and n.endswith("::build_numeric")]
+    fams = []
+    for sig in (1, 33, 34):
+        for z in (0, 1, 35, 40):
+            d = "1" * sig
+            fams += [(d + "0" * z, "0"), ("0", "0" * z + d), ("0" * z + d, "0"), ("0", d + "0" * z)]
+    fams = sorted(set(fams))
+    for name in bn:
+        h = F.hir[name]
+        probs, und = [], 0
+        for a, b in fams:
+            outs, ev, sf = run_fn(name, [lit(a), lit(b)])
+            want = "%s.%s" % (a, b)
+            got = {number_text(v, ev) for _, v in outs} if outs else {None}
+            if got == {want}:
+                continue
+            if None in got:
+                und += 1
+            elif len(probs) < 3:
+                probs.append("the literal %s (%d significant digits) %s" % (abbreviate(want), len((a + b).strip("0")), "evaluates to null" if got == {"ERR"} else "is read from %s" % sorted(got)))
+        key = "literal:build_numeric"
+        if probs:
+            rep.violation(rid, key, "%s: %s; a literal of up to 34 significant digits must evaluate to exactly its value" % (name.split("::")[-1], "; ".join(probs)), "%s:%s" % (h["file"], h["line"]))
+        elif und:
+            rep.undecided(rid, key, "%d of %d representative literals do not fold" % (und, len(fams)))
+        else:
+            rep.ok(rid, key, "%d representative literals (1 / 33 / 34 significant digits with 0 / 1 / 35 / 40 leading or trailing zeros) reach the decimal reader unchanged" % len(fams))
+    if not bn:
+        rep.missing_anchor(rid, "dmntk_feel_evaluator::builders::build_numeric")
+    # ---- typed input text
+    bodies = ["5", "007", "1234567890123456789012345678901234"]
+    dec_bodies = ["12.50", ".5", "5.", "0.0000000000000000000000000000000000001"]
+    dbl_bodies = ["1E3", "1.5e-3", "1E+3"]
+    forms = {"integer": bodies, "decimal": bodies + dec_bodies, "double": bodies + dec_bodies + dbl_bodies}
+    nfn = 0
+    for kind, bs in sorted(forms.items()):
+        names = [n for n in F.hir if n.startswith("dmntk_feel::values::Value::") and n.endswith("::try_from_xsd_" + kind)]
+        for name in names:
+            nfn += 1
+            h = F.hir[name]
+            probs, und, n = [], 0, 0
+            for sign in ("", "-", "+"):
+                for body in bs:
+                    n += 1
+                    t = sign + body
+                    outs, ev, sf = run_fn(name, [lit(t)])
+                    got = {number_text(v, ev) for _, v in outs} if outs else {None}
+                    if got <= {t, t.lstrip("+")} and got:
+                        continue
+                    if None in got:
+                        und += 1
+                    elif len(probs) < 3:
+                        probs.append("the xsd:%s text %s %s" % (kind, abbreviate(t), "is rejected" if got == {"ERR"} else "is read from %s" % sorted(got)))
+            key = "input:xsd:%s" % kind
+            if probs:
+                rep.violation(rid, key, "%s: %s before the decimal reader sees it" % (name.split("::")[-1], "; ".join(probs)), "%s:%s" % (h["file"], h["line"]))
+            elif und:
+                rep.undecided(rid, key, "%d of %d representative texts do not fold" % (und, n))
+            else:
+                rep.ok(rid, key, "%d representative texts (no sign / - / +, leading zeros, 34 digits, fraction-only forms%s) reach the decimal reader unchanged" % (n, ", exponents" if kind == "double" else ""))
+    rep.floor(rid, "typed-input conversion functions", nfn, 3)
+
+
+def abbreviate(t):
+    return t if len(t) <= 24 else "%s..%s (%d characters)" % (t[:8], t[-6:], len(t))
